@@ -104,19 +104,31 @@ func runRelayRealPT(c *harness.Ctx) {
 	closeDelay := []time.Duration{0, 0, 0, time.Millisecond, 3 * time.Second}[t.Draw("pt.closedelay", 5)]
 	c.Info["client_writes"], c.Info["reverse_bytes"], c.Info["iat"], c.Info["close_delay"] = plan, reverse, iat, closeDelay.String()
 
+	// which end of the obfs4 pair the relay holds: the bridge's (serverHandler)
+	// or the client's (clientHandler; the far end is then the bridge)
+	relayIsClient := t.Draw("pt.relay-role", 3) == 2
+	c.Info["relay_holds"] = map[bool]string{false: "obfs4 server conn", true: "obfs4 client conn"}[relayIsClient]
+	dial := func(under net.Conn) (net.Conn, error) {
+		pa, err := cf.ParseArgs(sf.Args())
+		if err != nil {
+			panic(err)
+		}
+		return cf.Dial("tcp", "x:1", func(string, string) (net.Conn, error) { return under, nil }, pa)
+	}
+	farConnect, relayConnect := dial, sf.WrapConn
+	if relayIsClient {
+		farConnect, relayConnect = sf.WrapConn, dial
+		c.Feature("real-transport-relay-holds-client-conn")
+	}
 	var produced, orGot, clGot int64
 	var clientUp, clientClosed, orDone bool
 	var clientClosedAt time.Duration
 	ending := false
 	c.S.Go("client/dial", func() {
-		pa, err := cf.ParseArgs(sf.Args())
-		if err != nil {
-			panic(err)
-		}
-		conn, err := cf.Dial("tcp", "x:1", func(string, string) (net.Conn, error) { return lp.A, nil }, pa)
+		conn, err := farConnect(lp.A)
 		if err != nil {
 			if !ending {
-				c.Violate("C19/harness", "obfs4 Dial: %v", err)
+				c.Violate("C19/harness", "obfs4 far end handshake: %v", err)
 			}
 			return
 		}
@@ -209,10 +221,10 @@ func runRelayRealPT(c *harness.Ctx) {
 	var returned bool
 	var ret error
 	c.S.Go("relay/copyLoop", func() {
-		conn, err := sf.WrapConn(lp.B)
+		conn, err := relayConnect(lp.B)
 		if err != nil {
 			if !ending {
-				c.Violate("C19/harness", "obfs4 WrapConn: %v", err)
+				c.Violate("C19/harness", "obfs4 relay-side handshake: %v", err)
 			}
 			return
 		}
